@@ -277,3 +277,48 @@ Proof.
     rewrite <- (firstn_skipn k). apply in_or_app. left. exact Hv.
   - destruct k; constructor.
 Qed.
+
+(* ------------------------------------------------------------------ attack with an iterable sustain *)
+Lemma attack_shape a d s0 la ld (rest : list Qc) :
+  (map (fun i => i * (1 / a)) (idxs la) ++ map (fun i => 1 + i * ((s0 - 1) / d)) (idxs ld)) ++ rest
+  = map (attack_sample a d s0 la ld (fun i => nth i rest 0)) (seq 0 (la + ld + length rest)).
+Proof.
+  rewrite !seq_app, !map_app. unfold idxs. rewrite !map_map. f_equal; [f_equal|].
+  - apply map_ext_in. intros i Hi. apply in_seq in Hi. unfold attack_sample.
+    replace (i <? la)%nat with true by (symmetry; apply Nat.ltb_lt; lia). unfold Qcdiv. ring.
+  - cbn [plus]. rewrite (map_seq_shift _ la ld). apply map_ext_in. intros i Hi. apply in_seq in Hi.
+    unfold attack_sample.
+    replace (la + i <? la)%nat with false by (symmetry; apply Nat.ltb_ge; lia).
+    replace (la + i <? la + ld)%nat with true by (symmetry; apply Nat.ltb_lt; lia).
+    replace (la + i - la)%nat with i by lia. reflexivity.
+  - cbn [plus]. rewrite (map_seq_shift _ (la + ld) (length rest)).
+    assert (R : rest = map (fun j => nth j rest 0) (seq 0 (length rest))).
+    { clear. induction rest as [|x r IH]; [reflexivity|]. cbn [length seq map nth]. f_equal.
+      rewrite <- seq_shift, map_map. exact IH. }
+    rewrite R at 1. apply map_ext_in. intros i Hi. apply in_seq in Hi. unfold attack_sample.
+    replace (la + ld + i <? la)%nat with false by (symmetry; apply Nat.ltb_ge; lia).
+    replace (la + ld + i <? la + ld)%nat with false by (symmetry; apply Nat.ltb_ge; lia).
+    f_equal. lia.
+Qed.
+
+(* the first item of the sustain is the decay target, the remaining items follow the decay; the envelope
+   ends with the sustain; an empty sustain raises (next() inside a generator) *)
+Theorem attack_stream_spec a d s0 rest k :
+  a <> 0 -> d <> 0 ->
+  attack a d (Str (s0 :: rest)) (S k)
+  = take_res (S k) (map (attack_sample a d s0 (nearest_len a) (nearest_len d) (fun i => nth i rest 0))
+                        (seq 0 (nearest_len a + nearest_len d + length rest)), EStop).
+Proof.
+  intros Na Nd. unfold attack.
+  rewrite (proj2 (Qc_is0_false a) Na), (proj2 (Qc_is0_false d) Nd). cbn [fst snd].
+  unfold range_len. fold (nearest_len a). fold (nearest_len d). rewrite attack_shape. reflexivity.
+Qed.
+
+Theorem attack_empty_sustain a d k : attack a d (Str []) (S k) = ([], ERaise "RuntimeError").
+Proof. reflexivity. Qed.
+
+Theorem line_zero_dur_refuted : exists d b e fin,
+  nearest_len d = O /\ line (DFin d) b e fin <> (line_spec d b e fin, EStop).
+Proof.
+  exists 0, 0, 1, false. split; [reflexivity|]. rewrite line_zero_division by reflexivity. discriminate.
+Qed.
